@@ -66,9 +66,14 @@ try:
     out["classes"] = [{"oracle": c["oracle"], "site": c["site"], "message": c["message"][:400],
                        "found_by_workers": c["found_by_workers"], "scheduler": c["scheduler"],
                        "schedules_of_that_worker_until_detection": c["schedules_of_this_worker_until_detection"],
+                       "earliest_detection_in_any_worker_after_schedules": c.get("earliest_detection_in_any_worker_after_schedules"),
                        "replay_reproduced": c["replay_reproduced_in_fresh_process"]} for c in e["violation_classes"]]
 except Exception as ex:
     out["evidence_error"] = str(ex)
+try:
+    out["statime_own_tests_with_this_mutant"] = open("/tmp/c17-scratch/out/upstream-%s.txt" % name).read().strip().splitlines()
+except Exception:
+    pass
 try:
     out["replay_last_lines"] = open("/tmp/c17-scratch/out/replay.txt").read().strip().splitlines()[-2:] if found == "1" else []
 except Exception:
@@ -85,6 +90,10 @@ for d in $HERE/mutants/*.diff; do
     n=$(basename $d .diff)
     echo "== mutant $n"
     git -C $MUT apply $d || { echo "patch $n does not apply"; exit 2; }
+    if [ "${RUN_UPSTREAM_TESTS:-0}" = 1 ]; then
+        # is the mutant invisible to statime's own (single-threaded, RefCell) test suite?
+        (cd $MUT && CARGO_TARGET_DIR=$SCR/target-upstream cargo test -p statime --offline 2>&1 | grep -E "^test result|FAILED|panicked" | head -5) | tee $SCR/out/upstream-$n.txt
+    fi
     build
     run_case $n 1
     git -C $MUT checkout -- .
